@@ -66,6 +66,7 @@ def roots(b, local):
 
 
 def run(ctx):
+    t1f_no_step_without_open(ctx)
     prog = ctx.prog
     wrappers = opener_fns(prog)
     bodies = [b for b in prog.prod_bodies() if "::_" not in b.defp and not b.defp.startswith("octo_squirrel::codec::aead::")]
@@ -438,3 +439,27 @@ def _writes_self_field(b, place):
     # through a reborrow of self (`Pin<&mut Self>` -> deref_mut): `(*_n).field` where _n derives from self
     locs, _, _ = b.slice_back([place[0]])
     return 1 in locs and any(e[0] == "deref" for e in place[1])
+
+
+def t1f_no_step_without_open(ctx):
+    """T1f: a chunk's place in the sequence is consumed only by authenticating it. In the authenticators every step of the nonce generator
+    feeds an AEAD primitive call in the same function; a function that advances the generator without opening anything ("skip this chunk")
+    lets the receiver step over a chunk on the strength of unauthenticated bytes — a deleted chunk goes unnoticed and what follows is released."""
+    from .common import aead_roles
+    prog = ctx.prog
+    auths, gens = aead_roles(prog)
+    n = 0
+    for b in prog.prod_bodies():
+        if (b.impl_self_def or "") not in auths or b.root != b.defp:
+            continue
+        steps = [(blk, c, t) for (blk, c, t) in b.calls() if (c.self_def or "") in gens and c.method not in ("new", "default", "init")]
+        prims = [(blk, c, t) for (blk, c, t) in b.calls() if is_prim(c)]
+        for (blk, c, t) in steps:
+            n += 1
+            fwd, fcalls, _ = b.slice_fwd([t["dest"][0]])
+            feeds = any((cc.method or "") in ("encrypt_in_place", "encrypt_in_place_detached", "decrypt_in_place", "decrypt_in_place_detached", "encrypt", "decrypt") for (_, cc, _, _) in fcalls)
+            ctx.ob("T1", b.defp, "generator-step-feeds-an-aead-call", loc(t["sp"]), feeds,
+                   "the generated nonce is handed to the AEAD primitive in the same function" if feeds else
+                   f"`{last_seg(b.defp)}` advances the nonce generator without sealing or opening anything: the receiver can step over a chunk without authenticating it, so a chunk "
+                   "that an attacker removed (or replaced by filler of the expected size) is skipped silently and the chunks behind it still authenticate and are released")
+    ctx.floor("T1", "nonce-generator steps in authenticators", 5, n)
